@@ -21,6 +21,7 @@ from glotaran.typing.types import DatasetMappable
 
 if TYPE_CHECKING:
     from collections.abc import Generator
+    from collections.abc import Iterable
     from collections.abc import Iterator
 
     import pandas as pd
@@ -251,6 +252,37 @@ def relative_posix_path(source_path: StrOrPath, base_path: StrOrPath | None = No
             source_path = os.path.relpath(source_path.as_posix(), Path(base_path).as_posix())
 
     return Path(source_path).as_posix()
+
+
+def parameter_text_column_read_options(column_names: Iterable[str]) -> dict[str, Any]:
+    """Get pandas reader options which keep the label and expression columns as text.
+
+    Without them pandas infers the column types from the content, so that labels like
+    ``1.10`` or ``01`` are read as numbers (``1.1``, ``1``), labels like ``none`` or ``NA``
+    as missing values and purely numeric expressions are dropped.
+
+    Parameters
+    ----------
+    column_names : Iterable[str]
+        Column names as they appear in the file (any capitalization or serialized option names).
+
+    Returns
+    -------
+    dict[str, Any]
+        Keyword arguments for ``pandas.read_csv`` or ``pandas.read_excel``.
+    """
+    from glotaran.parameter.parameter import OPTION_NAMES_DESERIALIZED
+
+    converters: dict[str, Any] = {}
+    dtype: dict[str, Any] = {}
+    for column_name in column_names:
+        attribute_name = str(column_name).lower()
+        attribute_name = OPTION_NAMES_DESERIALIZED.get(attribute_name, attribute_name)
+        if attribute_name == "label":
+            converters[column_name] = str
+        elif attribute_name == "expression":
+            dtype[column_name] = str
+    return {"converters": converters, "dtype": dtype}
 
 
 def safe_dataframe_fillna(df: pd.DataFrame, column_name: str, fill_value: Any) -> None:
